@@ -220,9 +220,10 @@ func addProbes(out *Outcome, p *core.Probes) {
 	out.Probes["double_miss_same_index"] += p.DoubleMiss
 	out.Probes["disabled_at_file_lock_while_other_between_seek_and_read"] += p.SeekReadContended
 	out.Probes["disabled_at_rule_lock"] += p.RuleLockContended
-	out.Probes["disabled_at_cache_lock"] += p.CacheLockContended
+	out.Probes["disabled_at_cache_lock_while_other_inside_cache_critical_section"] += p.CacheLockContended
 	out.Probes["pooled_request_seen_by_two_tasks"] += p.PoolHandoff
 	out.Probes["preemptions"] += p.Preemptions
+	out.Probes["lock_tracking_corrected_by_real_probe"] += p.TrackingCorrected
 	if p.MaxEnabled > out.Probes["max_enabled_tasks"] {
 		out.Probes["max_enabled_tasks"] = p.MaxEnabled
 	}
